@@ -306,6 +306,9 @@ func (x *Exec) assumeAxioms(p *Path) {
 			d.pkg = pkgOfFile(x.e, c.File)
 			s, err := d.EvalBool(c.E)
 			if err != nil {
+				if strings.Contains(err.Error(), "`strings` flag") {
+					continue // string-level axiom, function verified with uninterpreted strings
+				}
 				x.errorf("%s:%d: axiom: %v", c.File, c.Line, err)
 				continue
 			}
@@ -1308,6 +1311,9 @@ func (x *Exec) load(p *Path, snap *Snap, a *Addr) Val {
 		}
 		v := x.e.unflatten(a.ET, &ts)
 		v.Label = a.Label
+		if v.K == KSlice {
+			v.Off = "0" // slices held in package variables start at offset 0 of their backing array (checked on store)
+		}
 		if snap == nil {
 			x.globalInv(p, strings.TrimPrefix(a.Cell, "G:"), false)
 		}
@@ -1337,6 +1343,9 @@ func (x *Exec) storeTo(p *Path, a *Addr, v Val) {
 	case ALocal:
 		p.cells[a.Cell] = v
 	case AGlobal:
+		if v.K == KSlice {
+			x.oblige(p, "model", "global_slice_offset0", eq(v.Off, "0"), nil, "heap model: a slice stored in a package variable starts at offset 0 of its backing array")
+		}
 		ts := x.e.flatten(v)
 		for i, l := range x.e.leaves(a.ET) {
 			x.e.heapSet(p, a.Cell+l.Path, l.Sort, ts[i])
